@@ -2,7 +2,7 @@
 shape, and the AST -> MAST lowering of if/while/repeat and the locals prologue/epilogue."""
 import re
 from .mirutil import *
-from .mirsym import Interp, Poly, Term, Agg, Ptr, Opaque, enumerate_paths, Unanalysable, PanicReached, deref
+from .mirsym import Interp, Poly, Term, Agg, Ptr, Opaque, ListIt, enumerate_paths, Unanalysable, PanicReached, deref
 from . import procmodel, execmodel
 
 LEVEL = "other"
@@ -221,56 +221,117 @@ def r2_executor_shape(ctx, F):
             ctx.violation("executor-end|%s" % name, f.loc(), "execute_%s_block must call end_%s_block exactly once on every successful path, got %s" % (name, name, mm))
 
 
-def r3_lowering(ctx, F):
+def compile_node(F, node_of, empty_else=None):
+    """interpret Assembler::compile_body on a one-node body; the recursive compile_body, the span builder and the block
+    constructors are replaced by recorders. Returns the list of (blocks handed to combine_blocks, events) per path."""
     fn = F.fn(r"^miden_assembly::assembler::Assembler::compile_body$")
-    # if/else
-    ns = fn.calls_to(r"CodeBlock::new_split$")
-    ctx.inst(key="new_split", nontrivial=True)
-    if len(ns) != 1:
-        ctx.violation("new_split-sites", fn.loc(), "expected one CodeBlock::new_split in compile_body, found %d" % len(ns))
-    for bi, cal, t in ns:
-        s0 = fn.backward_slice(t["args"][0]["l"])
-        s1 = fn.backward_slice(t["args"][1]["l"])
-        f0 = {f for l, f in s0["fields"]}
-        f1 = {f for l, f in s1["fields"]}
-        ctx.sample({"new_split.arg0_fields": sorted(f0 & {"true_case", "false_case"}), "new_split.arg1_fields": sorted(f1 & {"true_case", "false_case"})})
-        ok = "true_case" in f0 and "false_case" not in f0 and "false_case" in f1 and "true_case" not in f1
+    nadt = F.adt(r"^miden_assembly::ast::nodes::Node$")
+    holder = {}
+    ok = lambda v: Agg([v], "adt", "core::result::Result", "Ok")
+    unit = lambda: Agg([], "tuple")
+
+    def make():
+        I = Interp(F)
+        procmodel.install_field(I)
+        rec = {"combined": None, "events": []}
+        holder["rec"] = rec
+
+        def add(rx, m):
+            I.overrides.insert(0, (re.compile(rx), m))
+
+        def sub_body(I_, a, f):
+            src = deref(a[1])
+            name = getattr(src, "name", repr(src))
+            rec["events"].append(("compile_body", name, isinstance(a[3], Agg) and a[3].variant))
+            return ok(Opaque("compiled<%s>" % name.replace("nodes-of-", "")))
+        add(r"^miden_assembly::assembler::Assembler::compile_body$", sub_body)
+        add(r"SpanBuilder::new$", lambda I_, a, f: Opaque("SpanBuilder"))
+        add(r"SpanBuilder::extract_(final_)?span_into$", lambda I_, a, f: unit())
+        add(r"^miden_assembly::ast::code_body::CodeBody::nodes$", lambda I_, a, f: Ptr([Opaque("nodes-of-%s" % getattr(deref(a[0]), "name", "?"))], 0))
+
+        def opq_iter(I_, a, f):
+            x = deref(a[0])
+            if isinstance(x, Opaque) and x.name.startswith("nodes-of-"):
+                return x
+            raise Unanalysable("iter over %r" % (x,))
+        add(r"^core::slice::\[T\]::iter$", opq_iter)
+
+        def opq_empty(I_, a, f):
+            x = deref(a[0])
+            if isinstance(x, Opaque) and x.name.startswith("nodes-of-"):
+                which = x.name[len("nodes-of-"):]
+                if empty_else is not None and which == "FALSE":
+                    return bool(empty_else)
+                return False
+            raise Unanalysable("is_empty of %r" % (x,))
+        add(r"^core::slice::\[T\]::is_empty$", opq_empty)
+
+        def mk(kind):
+            def m(I_, a, f):
+                names = [getattr(x, "name", None) or ("span%r" % ([getattr(o, "variant", o) for o in deref(x).items],) if isinstance(deref(x), Agg) else repr(x)) for x in a]
+                rec["events"].append((kind, tuple(names)))
+                return Opaque("%s(%s)" % (kind, ", ".join(names)))
+            return m
+        add(r"^miden_core::program::blocks::CodeBlock::new_split$", mk("split"))
+        add(r"^miden_core::program::blocks::CodeBlock::new_loop$", mk("loop"))
+        add(r"^miden_core::program::blocks::CodeBlock::new_span$", mk("span"))
+        add(r"CodeBlock@Clone::clone$", lambda I_, a, f: Opaque(deref(a[0]).name))
+
+        def combine(I_, a, f):
+            rec["combined"] = [getattr(x, "name", repr(x)) for x in deref(a[0]).items]
+            return Opaque("combined")
+        add(r"^miden_assembly::assembler::combine_blocks$", combine)
+        return I
+
+    def run(I):
+        vname, fields = node_of
+        vdef = [v for v in nadt["variants"] if v["name"] == vname][0]
+        items = [fields[f["name"]] for f in vdef["fields"]]
+        node = Agg(items, "adt", nadt["id"], vname)
+        it = ListIt([Ptr([node], 0)])
+        return I.call(fn.id, [Ptr([Opaque("Assembler")], 0), it, Ptr([Opaque("AssemblyContext")], 0), Agg([], "adt", "core::option::Option", "None")])
+
+    out = []
+    for I, res, exc in enumerate_paths(make, run, max_paths=64):
+        if exc is not None:
+            raise exc
+        out.append((holder["rec"]["combined"], holder["rec"]["events"], res))
+    return fn, out
+
+
+def r3_lowering(ctx, F):
+    """compile_body interpreted on one-node bodies: if/else -> new_split(compiled true case, compiled false case | NOOP span),
+    while -> new_loop(compiled body), repeat.n -> n clones of the compiled body (n = 1, 2, 5)"""
+    T, Fa, B = Opaque("TRUE"), Opaque("FALSE"), Opaque("BODY")
+    fn = F.fn(r"^miden_assembly::assembler::Assembler::compile_body$")
+    cases = [("if-else", ("IfElse", {"true_case": T, "false_case": Fa}), False, ["split(compiled<TRUE>, compiled<FALSE>)"]),
+             ("if-without-else", ("IfElse", {"true_case": T, "false_case": Fa}), True, None),
+             ("while", ("While", {"body": B}), None, ["loop(compiled<BODY>)"])]
+    cases += [("repeat.%d" % n, ("Repeat", {"times": n, "body": B}), None, ["compiled<BODY>"] * n) for n in (1, 2, 5)]
+    for key, node, empty_else, want in cases:
+        ctx.inst(key=key, nontrivial=True)
+        try:
+            _, paths = compile_node(F, node, empty_else)
+        except (Unanalysable, PanicReached) as e:
+            ctx.violation("UNANALYSABLE|compile_body|%s" % key, fn.loc(), str(e)[:300])
+            continue
+        if len(paths) != 1:
+            ctx.violation("UNANALYSABLE|compile_body|%s" % key, fn.loc(), "%d paths" % len(paths))
+            continue
+        combined, events, res = paths[0]
+        if key == "if-without-else":
+            ok = combined is not None and len(combined) == 1 and re.match(r"^split\(compiled<TRUE>, span\(span\['Noop'\]\)\)$", combined[0]) is not None
+            want = ["split(compiled<TRUE>, span(['Noop']))"]
+        else:
+            ok = combined == want
         ctx.oblig(ok)
+        ctx.sample({"body": key, "blocks": combined, "events": [e[:2] for e in events]})
         if not ok:
-            ctx.violation("split-argument-order", fn.loc(t["ln"]), "CodeBlock::new_split must receive (block compiled from true_case, block compiled from false_case); "
-                          "argument 0 derives from %s, argument 1 from %s" % (sorted(f0 & {"true_case", "false_case"}), sorted(f1 & {"true_case", "false_case"})))
-        # both come from compile_body (or the NOOP span for an empty else)
-        c0 = [c for b2, c, tt in s0["calls"] if c.endswith("compile_body")]
-        if not c0:
-            ctx.violation("split-true-not-compiled", fn.loc(t["ln"]), "the true branch passed to new_split is not the result of compile_body")
-    # while
-    nl = fn.calls_to(r"CodeBlock::new_loop$")
-    ctx.inst(key="new_loop", nontrivial=True)
-    for bi, cal, t in nl:
-        s0 = fn.backward_slice(t["args"][0]["l"])
-        ok = any(c.endswith("compile_body") for b2, c, tt in s0["calls"]) and "body" in {f for l, f in s0["fields"]}
-        ctx.oblig(ok)
-        if not ok:
-            ctx.violation("loop-body", fn.loc(t["ln"]), "CodeBlock::new_loop must wrap the block compiled from the while body")
-    if len(nl) != 1:
-        ctx.violation("new_loop-sites", fn.loc(), "expected one CodeBlock::new_loop in compile_body")
-    # repeat: loop bound derives from `times`, pushes a clone of the compiled body
-    ranges = [(bi, s) for bi, s in fn.aggregates(r"ops::range::Range$")]
-    ok = False
-    for bi, s in ranges:
-        end = s["r"]["ops"][1]
-        if "l" in end:
-            sl = fn.backward_slice(end["l"])
-            if "times" in {f for l, f in sl["fields"]} and fn.const_of(s["r"]["ops"][0]) == 0:
-                ok = True
-    ctx.inst(key="repeat", nontrivial=True)
-    ctx.oblig(ok)
-    if not ok:
-        ctx.violation("repeat-count", fn.loc(), "the repeat loop in compile_body does not iterate over 0..times")
-    pushes = fn.calls_to(r"alloc::vec::Vec::push$")
-    clones = [t for bi, c, t in pushes if any(cc.endswith("Clone::clone") or cc.endswith("CodeBlock@Clone::clone") for b2, cc, tt in fn.backward_slice(t["args"][1]["l"], through_calls=False)["calls"])]
-    if not clones:
-        ctx.violation("repeat-body", fn.loc(), "repeat does not push clones of the compiled body")
+            kind = {"if-else": "split-argument-order", "if-without-else": "split-empty-else", "while": "loop-body"}.get(key, "repeat-count")
+            ctx.violation("%s|%s" % (kind, key) if kind == "repeat-count" else kind, fn.loc(), "compile_body on a body consisting of one `%s` node builds %s; expected %s" % (key, combined, want))
+        # nested bodies are compiled without the locals wrapper
+        if any(e[0] == "compile_body" and e[2] != "None" for e in events):
+            ctx.violation("nested-wrapper|%s" % key, fn.loc(), "a nested body is compiled with a body wrapper (fmp prologue/epilogue would be repeated)")
 
 
 def r3b_locals_wrapper(ctx, F):
